@@ -5,6 +5,7 @@ import PlcModel.Analyze
 import PlcModel.Cli
 import PlcModel.Decode
 import PlcModel.Parse.Pou
+import PlcModel.Render
 
 /-!
 # plcdrv: line protocol driver for the executable model
@@ -33,6 +34,11 @@ def unhexText (s : String) : Option (List Char) :=
   match unhex s with
   | some b => (String.fromUTF8? b).map String.toList
   | none => none
+
+def hexDigit (n : Nat) : Char := if n < 10 then Char.ofNat ('0'.toNat + n) else Char.ofNat ('a'.toNat + n - 10)
+
+def hexOfString (s : String) : String :=
+  String.ofList (s.toUTF8.toList.flatMap fun b => [hexDigit (b.toNat / 16), hexDigit (b.toNat % 16)])
 
 def showItem (orig : List Char) (it : Item) : String :=
   if it.err then s!"!:P0031:{it.start}:{it.stop}"
@@ -295,6 +301,15 @@ def handle (line : String) : String :=
     match unhexText h with
     | some cs => (match Parse.parseProgram cs with
         | .ok sx => "OK " ++ sx.render
+        | .error c => "ERR " ++ c)
+    | none => "bad-arg"
+  | ["render", h] =>
+    -- parser mirror, then the renderer model; answer: the text (hex) whose lexemes are compared
+    match unhexText h with
+    | some cs => (match Parse.parseProgram cs with
+        | .ok sx => (match Render.library sx with
+            | some t => "OK " ++ hexOfString t
+            | none => "UNSUPPORTED")
         | .error c => "ERR " ++ c)
     | none => "bad-arg"
   | ["addr", h] =>
